@@ -34,6 +34,7 @@ type fcEvent struct {
 	Out string `json:"out"`
 	Res string `json:"res"`
 	H   int    `json:"h"`
+	Q   int    `json:"q"` // ret of a successful open: qid path of the reply
 	Run int    `json:"run"`
 }
 
@@ -60,6 +61,10 @@ func classOf(err error) string {
 		return "alreadyopen"
 	case strings.Contains(s, "no file open"):
 		return "notopen"
+	case strings.Contains(s, "create in non-directory"):
+		return "createnondir"
+	case strings.Contains(s, "not a directory"):
+		return "notdir"
 	case strings.Contains(s, "fs:"):
 		return "fs"
 	}
@@ -71,6 +76,82 @@ type fcRun struct {
 	events []fcEvent
 	run    int
 	outOf  map[int]string // process -> scripted outcome of its current op
+	gop    map[int64]int  // goroutine -> process (for calls without a context: Dirent.Qid)
+	lastQ  map[int]int    // process -> qid path answered by its last successful open
+}
+
+// decide: the scripted outcome of one FileSys call made on behalf of process p
+func (r *fcRun) decide(ctx context.Context, call string) sfs.Expect {
+	out, o := "ok", ""
+	if p, ok := ctx.Value(procKey{}).(int); ok {
+		r.mu.Lock()
+		o = r.outOf[p]
+		r.mu.Unlock()
+	}
+	switch {
+	case o == "fail":
+		out = "fail"
+	case o == "dirfail" && call == "opendir":
+		out = "fail"
+	}
+	// a create with outcome "ok" makes a plain file; every other entry handed out is a directory
+	return sfs.Expect{Call: call, Out: out, Dir: !(call == "create" && o == "ok")}
+}
+
+func (r *fcRun) proc(ctx context.Context) int {
+	if ctx != nil {
+		if p, ok := ctx.Value(procKey{}).(int); ok {
+			return p
+		}
+	}
+	r.mu.Lock()
+	defer r.mu.Unlock()
+	if p, ok := r.gop[hx.GoID()]; ok {
+		return p
+	}
+	return -1
+}
+
+// fsxOut: what the exit event of a FileSys call reports (only create's outcome matters to the model)
+func (r *fcRun) fsxOut(p int, call string) string {
+	if call != "create" {
+		return ""
+	}
+	r.mu.Lock()
+	defer r.mu.Unlock()
+	if r.outOf[p] == "fail" {
+		return "fail"
+	}
+	return "ok"
+}
+
+func newFcRun(run int) *fcRun {
+	return &fcRun{run: run, outOf: map[int]string{}, gop: map[int64]int{}, lastQ: map[int]int{}}
+}
+
+// invoke runs one session call of process p on its own goroutine and logs inv / ret.
+func (r *fcRun) invoke(sess p9p.Session, p int, o fcOp, limit time.Duration) (ok bool, dump string) {
+	ctx := context.WithValue(context.Background(), procKey{}, p)
+	r.mu.Lock()
+	r.outOf[p] = o.Out
+	r.mu.Unlock()
+	r.log(fcEvent{E: "inv", P: p, K: o.K, F: o.F, NF: o.NF, Out: o.Out})
+	var err error
+	q := 0
+	ok, dump = hx.RunTimed(limit, func() {
+		g := hx.GoID()
+		r.mu.Lock()
+		r.gop[g] = p
+		r.mu.Unlock()
+		q, err = doOp(ctx, sess, o)
+		r.mu.Lock()
+		delete(r.gop, g)
+		r.mu.Unlock()
+	})
+	if ok {
+		r.log(fcEvent{E: "ret", P: p, K: o.K, Res: classOf(err), Q: q})
+	}
+	return ok, dump
 }
 
 func (r *fcRun) log(e fcEvent) {
@@ -80,9 +161,10 @@ func (r *fcRun) log(e fcEvent) {
 	r.mu.Unlock()
 }
 
-func doOp(ctx context.Context, sess p9p.Session, o fcOp) error {
+func doOp(ctx context.Context, sess p9p.Session, o fcOp) (int, error) {
 	f, nf := p9p.Fid(o.F), p9p.Fid(o.NF)
 	var err error
+	q := 0
 	switch o.K {
 	case "stat":
 		_, err = sess.Stat(ctx, f)
@@ -98,19 +180,32 @@ func doOp(ctx context.Context, sess p9p.Session, o fcOp) error {
 		} else {
 			_, err = sess.Walk(ctx, f, nf, "a")
 		}
+	case "walkin":
+		_, err = sess.Walk(ctx, f, f, "a")
+	case "create":
+		perm := uint32(0644)
+		if o.Out == "dir" || o.Out == "dirfail" {
+			perm |= p9p.DMDIR
+		}
+		_, _, err = sess.Create(ctx, f, "n", perm, p9p.ORDWR)
 	case "open":
-		_, _, err = sess.Open(ctx, f, p9p.ORDWR)
+		var qid p9p.Qid
+		qid, _, err = sess.Open(ctx, f, p9p.ORDWR)
+		if err == nil {
+			q = int(qid.Path)
+		}
 	case "read":
 		_, err = sess.Read(ctx, f, make([]byte, 4), 0)
 	case "attach":
 		_, err = sess.Attach(ctx, f, p9p.NOFID, "u", "/")
 	}
-	return err
+	return q, err
 }
 
 // genWorkload: shared fids 0,1 (pre-bound), process p owns fid 2+p as allocation target.
 func genWorkload(rng *rand.Rand, P, nops int) [][]fcOp {
 	w := make([][]fcOp, P)
+	createOut := func() string { return []string{"ok", "dir", "dir", "dirfail", "dirfail", "fail"}[rng.Intn(6)] }
 	for p := 0; p < P; p++ {
 		own := 2 + p
 		for i := 0; i < nops; i++ {
@@ -120,12 +215,12 @@ func genWorkload(rng *rand.Rand, P, nops int) [][]fcOp {
 				out = "fail"
 			}
 			var o fcOp
-			switch rng.Intn(11) {
+			switch rng.Intn(14) {
 			case 10:
 				// any use (also clunk / remove / walking from it) of the fid another process is possibly allocating right
 				// now: the property's discipline only forbids allocating the same new fid from two requests at once
 				other := 2 + (p+1+rng.Intn(P-1))%P
-				k := []string{"stat", "open", "read", "wstat", "clunk", "remove", "walk"}[rng.Intn(7)]
+				k := []string{"stat", "open", "read", "wstat", "clunk", "remove", "walk", "create", "walkin"}[rng.Intn(9)]
 				o = fcOp{k, other, 0, out}
 				if k == "walk" {
 					o.NF = own
@@ -133,24 +228,37 @@ func genWorkload(rng *rand.Rand, P, nops int) [][]fcOp {
 				if k == "read" {
 					o.Out = "ok"
 				}
+				if k == "create" {
+					o.Out = createOut()
+				}
 			case 0, 1:
 				o = fcOp{"stat", s, 0, out}
 			case 2:
 				o = fcOp{"clunk", s, 0, out}
 			case 3:
 				o = fcOp{"remove", s, 0, out}
-			case 4, 5:
+			case 4:
 				o = fcOp{"walk", s, own, out}
+			case 5:
+				// clone or one-name walk
+				o = fcOp{"walk", s, own, []string{"ok", "fail", "clone"}[rng.Intn(3)]}
 			case 6:
 				o = fcOp{"open", s, 0, out}
 			case 7:
 				o = fcOp{"read", s, 0, "ok"}
 			case 8:
 				// operate on the own fid (bound or not)
-				k := []string{"stat", "clunk", "open", "read", "attach"}[rng.Intn(5)]
+				k := []string{"stat", "clunk", "open", "read", "attach", "create"}[rng.Intn(6)]
 				o = fcOp{k, own, 0, out}
+				if k == "create" {
+					o.Out = createOut()
+				}
 			case 9:
 				o = fcOp{"wstat", s, 0, out}
+			case 11, 12:
+				o = fcOp{"create", s, 0, createOut()}
+			case 13:
+				o = fcOp{"walkin", s, 0, out}
 			}
 			w[p] = append(w[p], o)
 		}
@@ -158,8 +266,48 @@ func genWorkload(rng *rand.Rand, P, nops int) [][]fcOp {
 	return w
 }
 
+// wire connects a scripted file system to the run's event log; park (optional) is called on entry of
+// every FileSys call (after it has been logged) and may block.
+func (r *fcRun) wire(fs *sfs.FS, jit func(), park func(p int, call string, h *sfs.Handle)) {
+	fs.Decide = func(call string, h *sfs.Handle) sfs.Expect {
+		return sfs.Expect{Call: call, Out: "ok", Dir: true}
+	}
+	// per-call outcome comes from the calling process's current operation (carried in ctx)
+	fs.DecideCtx = func(ctx context.Context, call string, h *sfs.Handle) sfs.Expect { return r.decide(ctx, call) }
+	gate := func(p int, enter bool, call string, h *sfs.Handle) {
+		if h == nil {
+			return
+		}
+		if enter {
+			r.log(fcEvent{E: "fse", P: p, H: h.ID, K: call})
+			if park != nil {
+				park(p, call, h)
+			}
+			jit()
+		} else {
+			jit()
+			r.log(fcEvent{E: "fsx", P: p, H: h.ID, K: call, Out: r.fsxOut(p, call)})
+		}
+	}
+	fs.Gate = func(ctx context.Context, enter bool, call string, h *sfs.Handle) { gate(r.proc(ctx), enter, call, h) }
+	fs.QidGate = func(enter bool, h *sfs.Handle) { gate(r.proc(nil), enter, "qid", h) }
+}
+
+func hangViolation(res *hx.Result, sig, what, dump string, w interface{}) {
+	if strings.HasPrefix(dump, "PANIC:") {
+		res.Violate("hang", strings.Replace(sig, "conc-hang", "conc-panic", 1), what+" panicked (the call never returns)\n"+hx.Trunc(dump, 1500), map[string]interface{}{"workload": w})
+		return
+	}
+	gs := hx.GoroutinesWith(dump, "p9p.(*session)", "sync.(*Mutex).Lock")
+	d := what + " never returns although every FileSys call returned"
+	if len(gs) > 0 {
+		d += "\n" + hx.Trunc(gs[0], 1500)
+	}
+	res.Violate("hang", sig, d, map[string]interface{}{"workload": w})
+}
+
 func runFidConc(run int, w [][]fcOp, jitter int64, res *hx.Result) []fcEvent {
-	r := &fcRun{run: run, outOf: map[int]string{}}
+	r := newFcRun(run)
 	fs := sfs.New()
 	rngMu := sync.Mutex{}
 	jr := rand.New(rand.NewSource(jitter))
@@ -174,57 +322,14 @@ func runFidConc(run int, w [][]fcOp, jitter int64, res *hx.Result) []fcEvent {
 			runtime.Gosched()
 		}
 	}
-	fs.Decide = func(call string, h *sfs.Handle) sfs.Expect {
-		return sfs.Expect{Call: call, Out: "ok", Dir: true}
-	}
-	// per-call outcome comes from the calling process's current operation (carried in ctx)
-	fs.DecideCtx = func(ctx context.Context, call string, h *sfs.Handle) sfs.Expect {
-		out := "ok"
-		if p, ok := ctx.Value(procKey{}).(int); ok {
-			r.mu.Lock()
-			if r.outOf[p] == "fail" {
-				out = "fail"
-			}
-			r.mu.Unlock()
-		}
-		return sfs.Expect{Call: call, Out: out, Dir: true}
-	}
-	fs.Gate = func(ctx context.Context, enter bool, call string, h *sfs.Handle) {
-		p, _ := ctx.Value(procKey{}).(int)
-		if h != nil {
-			if enter {
-				r.log(fcEvent{E: "fse", P: p, H: h.ID, K: call})
-				jit()
-			} else {
-				jit()
-				r.log(fcEvent{E: "fsx", P: p, H: h.ID, K: call})
-			}
-		}
-	}
+	r.wire(fs, jit, nil)
 	sess := p9p.SFileSys(fs)
 	call := func(p int, o fcOp) bool {
-		ctx := context.WithValue(context.Background(), procKey{}, p)
-		r.mu.Lock()
-		r.outOf[p] = o.Out
-		r.mu.Unlock()
-		r.log(fcEvent{E: "inv", P: p, K: o.K, F: o.F, NF: o.NF, Out: o.Out})
-		var err error
-		ok, dump := hx.RunTimed(4*time.Second, func() { err = doOp(ctx, sess, o) })
-		if !ok && strings.HasPrefix(dump, "PANIC:") {
-			res.Violate("hang", "conc-panic:"+o.K, fmt.Sprintf("concurrent %s(fid %d) panicked\n%s", o.K, o.F, hx.Trunc(dump, 1500)), map[string]interface{}{"workload": w})
-			return false
-		}
+		ok, dump := r.invoke(sess, p, o, 4*time.Second)
 		if !ok {
-			gs := hx.GoroutinesWith(dump, "p9p.(*session)", "sync.(*Mutex).Lock")
-			d := fmt.Sprintf("concurrent %s(fid %d) never returns although every FileSys call returned", o.K, o.F)
-			if len(gs) > 0 {
-				d += "\n" + hx.Trunc(gs[0], 1500)
-			}
-			res.Violate("hang", "conc-hang:"+o.K, d, map[string]interface{}{"workload": w})
-			return false
+			hangViolation(res, "conc-hang:"+o.K, fmt.Sprintf("concurrent %s(fid %d)", o.K, o.F), dump, w)
 		}
-		r.log(fcEvent{E: "ret", P: p, K: o.K, Res: classOf(err)})
-		return true
+		return ok
 	}
 	// sequential set-up by process 0: bind the shared fids
 	call(0, fcOp{"attach", 0, 0, "ok"})
@@ -251,6 +356,9 @@ func runFidConc(run int, w [][]fcOp, jitter int64, res *hx.Result) []fcEvent {
 		return nil
 	}
 	// quiescence: no fid may be left locked -> a probe on every fid returns
+	r.mu.Lock()
+	nev := len(r.events)
+	r.mu.Unlock()
 	for f := 0; f < 2+len(w); f++ {
 		o := fcOp{"stat", f, 0, "ok"}
 		ctx := context.WithValue(context.Background(), procKey{}, 0)
@@ -267,95 +375,126 @@ func runFidConc(run int, w [][]fcOp, jitter int64, res *hx.Result) []fcEvent {
 	}
 	r.mu.Lock()
 	defer r.mu.Unlock()
-	// drop the probe's fs events (they come after every ret)
-	last := 0
-	for i, e := range r.events {
-		if e.E == "ret" {
-			last = i
-		}
-	}
-	return append([]fcEvent{}, r.events[:last+1]...)
+	// drop the probes' fs events (they come after every ret)
+	return append([]fcEvent{}, r.events[:nev]...)
 }
 
-// runDirected: a walk that allocates fid 5 is parked inside the FileSys while a second request names fid 5;
-// then the walk is released (succeeding or failing).  Both must return; the history is validated like the others.
-func runDirected(run int, op2 string, walkOut string, res *hx.Result) []fcEvent {
-	r := &fcRun{run: run, outOf: map[int]string{}}
+// dirScen: one request (op1, process 1) is parked inside the file system - on entry of its FileSys call
+// parkCall, once it has already completed a call parkAfter (if given) - while a second request (op2,
+// process 2) is issued; after a short pause op1 is released.  Both must return; the history is validated
+// like the others.  pre: requests issued sequentially beforehand by process 0.
+type dirScen struct {
+	Name      string
+	Pre       []fcOp
+	Op1       fcOp
+	ParkCall  string
+	ParkAfter string
+	Op2       fcOp
+}
+
+func directedScenarios() []dirScen {
+	var l []dirScen
+	// every kind of request on a fid while the walk allocating it is inside the file system
+	for _, op2 := range []string{"stat", "open", "read", "wstat", "clunk", "remove", "walk", "create"} {
+		for _, wo := range []string{"ok", "fail"} {
+			o2 := fcOp{op2, 5, 4, "ok"}
+			if op2 == "create" {
+				o2.Out = "dir"
+			}
+			l = append(l, dirScen{"during-walk-" + wo, nil, fcOp{"walk", 0, 5, wo}, "walk", "", o2})
+		}
+	}
+	// every kind of request on a fid whose create is inside the file system: in Create itself, in the
+	// session's own OpenDir of the new directory, and in the clean-up after that OpenDir failed
+	on0 := []fcOp{{"stat", 0, 0, "ok"}, {"wstat", 0, 0, "ok"}, {"clunk", 0, 0, "ok"}, {"remove", 0, 0, "ok"}, {"open", 0, 0, "ok"},
+		{"walk", 0, 4, "clone"}, {"walk", 0, 4, "ok"}, {"walkin", 0, 0, "ok"}, {"create", 0, 0, "dir"}, {"create", 0, 0, "ok"}, {"attach", 0, 0, "ok"}}
+	for _, o2 := range on0 {
+		for _, co := range []string{"ok", "dir", "dirfail", "fail"} {
+			l = append(l, dirScen{"during-create-" + co, nil, fcOp{"create", 0, 0, co}, "create", "", o2})
+		}
+		l = append(l, dirScen{"during-create-opendir-ok", nil, fcOp{"create", 0, 0, "dir"}, "opendir", "", o2})
+		l = append(l, dirScen{"during-create-opendir-fail", nil, fcOp{"create", 0, 0, "dirfail"}, "opendir", "", o2})
+		l = append(l, dirScen{"during-create-cleanup", nil, fcOp{"create", 0, 0, "dirfail"}, "clunk", "", o2})
+		// open is building its reply (Qid of the entry) after the file system opened the entry
+		l = append(l, dirScen{"during-open-reply", nil, fcOp{"open", 0, 0, "ok"}, "qid", "opendir", o2})
+		l = append(l, dirScen{"during-open", nil, fcOp{"open", 0, 0, "ok"}, "opendir", "", o2})
+		l = append(l, dirScen{"during-open-fail", nil, fcOp{"open", 0, 0, "fail"}, "opendir", "", o2})
+		// an in-place walk releases the old entry
+		l = append(l, dirScen{"during-walkin-clunk", nil, fcOp{"walkin", 0, 0, "ok"}, "clunk", "", o2})
+		l = append(l, dirScen{"during-walkin", nil, fcOp{"walkin", 0, 0, "ok"}, "walk", "", o2})
+		// clunk / remove inside the file system
+		l = append(l, dirScen{"during-clunk", nil, fcOp{"clunk", 0, 0, "ok"}, "clunk", "", o2})
+		l = append(l, dirScen{"during-remove-fail", nil, fcOp{"remove", 0, 0, "fail"}, "remove", "", o2})
+		// create's reply (Qid of the new entry) for a plain file
+		l = append(l, dirScen{"during-create-reply", nil, fcOp{"create", 0, 0, "ok"}, "qid", "create", o2})
+	}
+	return l
+}
+
+func runDirected(run int, sc dirScen, res *hx.Result) []fcEvent {
+	r := newFcRun(run)
 	fs := sfs.New()
 	parked := make(chan struct{}, 1)
 	release := make(chan struct{})
-	fs.Decide = func(call string, h *sfs.Handle) sfs.Expect { return sfs.Expect{Call: call, Out: "ok", Dir: true} }
-	fs.DecideCtx = func(ctx context.Context, call string, h *sfs.Handle) sfs.Expect {
-		out := "ok"
-		if p, ok := ctx.Value(procKey{}).(int); ok {
-			r.mu.Lock()
-			if r.outOf[p] == "fail" {
-				out = "fail"
-			}
-			r.mu.Unlock()
+	var pmu sync.Mutex
+	seenAfter, done := sc.ParkAfter == "", false
+	park := func(p int, call string, h *sfs.Handle) {
+		if p != 1 {
+			return
 		}
-		return sfs.Expect{Call: call, Out: out, Dir: true}
-	}
-	fs.Gate = func(ctx context.Context, enter bool, call string, h *sfs.Handle) {
-		p, _ := ctx.Value(procKey{}).(int)
-		if h != nil {
-			if enter {
-				r.log(fcEvent{E: "fse", P: p, H: h.ID, K: call})
-			} else {
-				r.log(fcEvent{E: "fsx", P: p, H: h.ID, K: call})
-			}
+		pmu.Lock()
+		hit := !done && seenAfter && call == sc.ParkCall
+		if hit {
+			done = true
 		}
-		if enter && p == 1 && call == "walk" {
+		if call == sc.ParkAfter {
+			seenAfter = true
+		}
+		pmu.Unlock()
+		if hit {
 			parked <- struct{}{}
 			<-release
 		}
 	}
+	r.wire(fs, func() {}, park)
 	sess := p9p.SFileSys(fs)
-	w := [][]fcOp{{{"walk", 0, 5, walkOut}}, {{op2, 5, 4, "ok"}}}
+	w := map[string]interface{}{"scenario": sc}
 	call := func(p int, o fcOp) bool {
-		ctx := context.WithValue(context.Background(), procKey{}, p)
-		r.mu.Lock()
-		r.outOf[p] = o.Out
-		r.mu.Unlock()
-		r.log(fcEvent{E: "inv", P: p, K: o.K, F: o.F, NF: o.NF, Out: o.Out})
-		var err error
-		ok, dump := hx.RunTimed(4*time.Second, func() { err = doOp(ctx, sess, o) })
+		ok, dump := r.invoke(sess, p, o, 4*time.Second)
 		if !ok {
-			gs := hx.GoroutinesWith(dump, "p9p.(*session)", "sync.(*Mutex).Lock")
-			d := fmt.Sprintf("%s(fid %d) issued while a walk that allocates fid %d was in progress (walk outcome: %s) never returns although every FileSys call returned", o.K, o.F, o.F, walkOut)
-			if len(gs) > 0 {
-				d += "\n" + hx.Trunc(gs[0], 1500)
-			}
-			res.Violate("hang", "conc-hang:"+o.K+":during-walk-"+walkOut, d, map[string]interface{}{"workload": w})
-			return false
+			hangViolation(res, "conc-hang:"+o.K+":"+sc.Name, fmt.Sprintf("%s(fid %d) issued while %s(fid %d, outcome %s) was inside the file system (%s)", o.K, o.F, sc.Op1.K, sc.Op1.F, sc.Op1.Out, sc.ParkCall), dump, w)
 		}
-		r.log(fcEvent{E: "ret", P: p, K: o.K, Res: classOf(err)})
-		return true
+		return ok
 	}
 	call(0, fcOp{"attach", 0, 0, "ok"})
+	for _, o := range sc.Pre {
+		call(0, o)
+	}
 	var wg sync.WaitGroup
 	okAll := true
 	var mu sync.Mutex
-	wg.Add(1)
-	go func() {
+	run1 := func(p int, o fcOp) {
 		defer wg.Done()
-		if !call(1, w[0][0]) {
+		if !call(p, o) {
 			mu.Lock()
 			okAll = false
 			mu.Unlock()
 		}
-	}()
-	<-parked
+	}
 	wg.Add(1)
-	go func() {
-		defer wg.Done()
-		if !call(2, w[1][0]) {
-			mu.Lock()
-			okAll = false
-			mu.Unlock()
-		}
-	}()
-	time.Sleep(3 * time.Millisecond) // let the second request reach the reserved fid's lock
+	go run1(1, sc.Op1)
+	select {
+	case <-parked:
+	case <-time.After(3 * time.Second):
+		// op1 never reached the parking point (it returned before): nothing to interleave
+		close(release)
+		wg.Wait()
+		res.Add("steps_skipped", 1)
+		return nil
+	}
+	wg.Add(1)
+	go run1(2, sc.Op2)
+	time.Sleep(3 * time.Millisecond) // let the second request reach the fid's lock
 	close(release)
 	wg.Wait()
 	if !okAll {
@@ -371,6 +510,7 @@ func FidConc(args []string) {
 	out := fl.String("out", "", "result file")
 	tracePath := fl.String("trace", "", "trace output")
 	n := fl.Int("n", 300, "number of workloads")
+	reps := fl.Int("reps", 2, "repetitions of the directed scenarios")
 	fl.Parse(args)
 	res := hx.NewResult()
 	defer res.Write(*out)
@@ -384,6 +524,17 @@ func FidConc(args []string) {
 	enc := json.NewEncoder(f)
 	distinct := map[string]bool{}
 	nev := 0
+	emit := func(run int, ev []fcEvent) {
+		sig := ""
+		for _, e := range ev {
+			enc.Encode(e)
+			nev++
+			sig += fmt.Sprint(e.E, e.P, e.K, e.Res, ";")
+		}
+		enc.Encode(fcEvent{E: "reset", Run: run})
+		distinct[sig] = true
+		res.Evaluations++
+	}
 	for i := 0; i < *n; i++ {
 		P := 2 + rng.Intn(3)
 		nops := 1 + rng.Intn(3)
@@ -398,42 +549,24 @@ func FidConc(args []string) {
 			}
 			continue
 		}
-		sig := ""
-		for _, e := range ev {
-			enc.Encode(e)
-			nev++
-			sig += fmt.Sprint(e.E, e.P, e.K, e.Res, ";")
-		}
-		enc.Encode(fcEvent{E: "reset", Run: i + 1})
-		distinct[sig] = true
 		if i < 2 {
 			res.Sample(map[string]interface{}{"workload": w, "history": ev})
 		}
-		res.Evaluations++
+		emit(i+1, ev)
 	}
-	// directed: every kind of request on a fid while the walk allocating it is inside the file system
+	// directed interleavings
 	nd := 0
-	for rep := 0; rep < 3; rep++ {
-		for _, op2 := range []string{"stat", "open", "read", "wstat", "clunk", "remove", "walk"} {
-			for _, wo := range []string{"ok", "fail"} {
-				nd++
-				ev := runDirected(*n+nd, op2, wo, res)
-				if ev == nil {
-					continue
-				}
-				sig := ""
-				for _, e := range ev {
-					enc.Encode(e)
-					nev++
-					sig += fmt.Sprint(e.E, e.P, e.K, e.Res, ";")
-				}
-				enc.Encode(fcEvent{E: "reset", Run: *n + nd})
-				distinct[sig] = true
-				res.Evaluations++
+	scs := directedScenarios()
+	for rep := 0; rep < *reps; rep++ {
+		for _, sc := range scs {
+			nd++
+			if ev := runDirected(*n+nd, sc, res); ev != nil {
+				emit(*n+nd, ev)
 			}
 		}
 	}
 	res.Distinct = len(distinct)
 	res.Set("events", nev)
 	res.Set("directed_scenarios", nd)
+	res.Set("directed_scenario_kinds", len(scs))
 }
